@@ -114,7 +114,8 @@ impl SampleTables {
         let cts_offsets: Vec<i32> = samples
             .iter()
             .map(|sample| {
-                let offset = (sample.pts as i64 - sample.dts as i64) as i32;
+                // Fits 32 bits: write_video_sample_with_dts rejects larger offsets.
+                let offset = sample.pts.wrapping_sub(sample.dts) as i32;
                 if offset != 0 {
                     has_bframes = true;
                 }
@@ -499,6 +500,11 @@ impl<Writer: Write> Mp4Writer<Writer> {
     ) -> Result<(), Mp4WriterError> {
         if self.finalized {
             return Err(Mp4WriterError::AlreadyFinalized);
+        }
+        // The composition offset (pts - dts) is stored as a signed 32-bit value.
+        let cts_offset = i128::from(pts) - i128::from(dts);
+        if cts_offset > i128::from(i32::MAX) || cts_offset < i128::from(i32::MIN) {
+            return Err(Mp4WriterError::DurationOverflow);
         }
         // DTS must be monotonically increasing (decode order)
         if let Some(prev) = self.video_prev_pts {
